@@ -73,6 +73,7 @@ async def with_shipped_evaluators(mode: str, cer, factory, text: Optional[str] =
       mode "cer":       create_content_evaluation_result_based_evaluators(), the result travelling in context local evaluatable data
       mode "cer-long-lived": the same evaluators, but ONE EvaluatableData object whose body is refreshed in place from call to call
       mode "hardcoded-other-version" / "hardcoded-other-format": as "hardcoded", but the message is of a version / format nothing is registered for
+      mode "hardcoded-mscons": as "hardcoded", logic and message both of the format MSCONS
       mode "one-table-provider": a user-written TokenLogicProvider serving one DictBasedPackageResolver(table) created without format
       mode "instances": user evaluator classes that keep their answers in instance state, new instances for every call
     ("ok", value) | ("exc", exception); the harness evaluators are re-installed afterwards
@@ -89,6 +90,11 @@ async def with_shipped_evaluators(mode: str, cer, factory, text: Optional[str] =
         from efoli import EdifactFormat
 
         E.install_hardcoded(cer, data_format=EdifactFormat.MSCONS)
+    elif mode == "hardcoded-mscons":
+        # logic registered for MSCONS, the message is an MSCONS message: everything as in "hardcoded", only not UTILMD
+        from efoli import EdifactFormat
+
+        E.install_hardcoded(cer, data_format=EdifactFormat.MSCONS, logic_format=EdifactFormat.MSCONS)
     elif mode == "one-table-provider":
         E.install_one_table_provider(dict(cer.packages or {}))
     elif mode == "cer-resolver-without-format":
